@@ -181,13 +181,20 @@ func (Engine) Run(t *tape.Tape, o eng.Opts) *eng.Result {
 				// Sometimes the tree changes between the answer that handed out the validator and
 				// this conditional request: a request in between replaces or removes the very file.
 				if own := strings.Trim(info.rel, "/"); mutate && gen.Intn(2) == 1 {
-					if f := d.files[own]; f != nil && !f.spec.isDir {
+					if f := d.files[own]; f != nil {
 						mq := &world.Req{ID: id, Name: "q" + itoa(id), PlannedCancel: -1, Method: "GET", Path: pfx + "/empty.txt"}
 						id++
 						version := 1 + gen.Intn(8)
-						if gen.Intn(2) == 0 {
+						switch {
+						case f.spec.isDir && gen.Intn(2) == 0:
+							// a directory that was answered (redirected, or served through its index) goes
+							// away or becomes a regular file before it is asked for again
+							mq.FSMut = []world.FSMutation{{At: 0, What: "dir->file " + own, Do: func() { d.swapToFile(own, version) }}}
+						case f.spec.isDir:
+							mq.FSMut = []world.FSMutation{{At: 0, What: "remove " + own, Do: func() { d.remove(own) }}}
+						case gen.Intn(2) == 0:
 							mq.FSMut = []world.FSMutation{{At: 0, What: "replace " + own, Do: func() { d.replace(own, version) }}}
-						} else {
+						default:
 							mq.FSMut = []world.FSMutation{{At: 0, What: "remove " + own, Do: func() { d.remove(own) }}}
 						}
 						mq.Progs = make([][]world.Act, world.MaxPos)
